@@ -30,12 +30,17 @@ pub fn scenario(seed: u64, idx: u64) -> Scenario {
             }
         }
     }
+    // a share of the runs has tasks that panic (the pool has to survive them)
+    let panicky = rng.chance(1, 5);
     while tasks.len() < total {
-        tasks.push(if rng.chance(1, 3) { TaskKind::Long(rng.range(1, 4) as u32) } else { TaskKind::Instant });
+        tasks.push(if panicky && rng.chance(1, 3) { TaskKind::Panicking } else if rng.chance(1, 3) { TaskKind::Long(rng.range(1, 4) as u32) } else { TaskKind::Instant });
     }
     rng.shuffle(&mut tasks);
+    // submit and forget: the owner lets go of the pool right after the last hand-over (workers of
+    // the pinned pool then poll a closed queue for ever, so only under the fair random scheduler)
+    let drop_after_submit = rng.chance(1, 6) && sc.sched.kind == SchedKind::Random;
     sc.workers = size;
-    sc.pool = Some(PoolSc { size, submitters, tasks });
+    sc.pool = Some(PoolSc { size, submitters, tasks, drop_after_submit });
     // simulated clock on half of the runs: time read by the pool jumps ahead by up to two minutes
     // now and then (a job "waited" that long in the queue)
     if rng.chance(1, 2) {
@@ -53,11 +58,14 @@ pub fn flood(seed: u64, idx: u64) -> Scenario {
     let size = rng.range(2, 4);
     let n = *rng.pick(&[130usize, 260, 520, 1030, 1100, 2060, 4100, 8200, 10_100, 33_000, 66_000]);
     let mut tasks = vec![TaskKind::Gated];
-    for _ in 0..n {
-        tasks.push(TaskKind::Instant);
+    // half of the floods are floods of panicking tasks (hundreds of them on one pool)
+    let panicking = rng.chance(1, 2);
+    let n = if panicking { n.min(2060) } else { n };
+    for k in 0..n {
+        tasks.push(if panicking && k % 3 != 2 { TaskKind::Panicking } else { TaskKind::Instant });
     }
     sc.workers = size;
-    sc.pool = Some(PoolSc { size, submitters: rng.range(1, 2), tasks });
+    sc.pool = Some(PoolSc { size, submitters: rng.range(1, 2), tasks, drop_after_submit: false });
     if rng.chance(1, 2) {
         sc.yields = vec!["clock".into()];
     }
@@ -80,7 +88,7 @@ pub fn rounds(seed: u64, idx: u64) -> Scenario {
         }
     }
     sc.workers = size;
-    sc.pool = Some(PoolSc { size, submitters: 1, tasks });
+    sc.pool = Some(PoolSc { size, submitters: 1, tasks, drop_after_submit: false });
     sc
 }
 
